@@ -200,6 +200,53 @@ func (e *Exec) exportPoint() {
 	}
 }
 
+// decodeRune is unicode/utf8.DecodeRuneInString on possibly symbolic bytes
+// (what a range loop over a string does at each step): the first rune and its
+// width, forking over the well-formed sequence shapes; anything else is
+// (RuneError, 1).
+func (e *Exec) decodeRune(bs []Int) (Int, int) {
+	n := len(bs)
+	w32 := func(b Int) Int {
+		b.S = false
+		return e.conv(types.Typ[types.Int32], types.Typ[types.Uint8], b).(Int)
+	}
+	bits := func(b Int, mask uint64, sh uint64) Int {
+		x := intBinop(token.AND, w32(b), mkInt(32, true, mask)).(Int)
+		if sh == 0 {
+			return x
+		}
+		return intBinop(token.SHL, x, mkInt(32, true, sh)).(Int)
+	}
+	or := func(a, b Int) Int { return intBinop(token.OR, a, b).(Int) }
+	cont := func(k int) Bool { return byteIn(bs[k], 0x80, 0xBF) }
+	b0 := bs[0]
+	if e.decide(byteIn(b0, 0x00, 0x7F)) {
+		return w32(b0), 1
+	}
+	if n >= 2 && e.decide(band(byteIn(b0, 0xC2, 0xDF), cont(1))) {
+		return or(bits(b0, 0x1F, 6), bits(bs[1], 0x3F, 0)), 2
+	}
+	if n >= 3 {
+		second := bor(bor(
+			band(byteIn(b0, 0xE0, 0xE0), byteIn(bs[1], 0xA0, 0xBF)),
+			band(byteIn(b0, 0xED, 0xED), byteIn(bs[1], 0x80, 0x9F))),
+			band(bor(byteIn(b0, 0xE1, 0xEC), byteIn(b0, 0xEE, 0xEF)), cont(1)))
+		if e.decide(band(second, cont(2))) {
+			return or(or(bits(b0, 0x0F, 12), bits(bs[1], 0x3F, 6)), bits(bs[2], 0x3F, 0)), 3
+		}
+	}
+	if n >= 4 {
+		second := bor(bor(
+			band(byteIn(b0, 0xF0, 0xF0), byteIn(bs[1], 0x90, 0xBF)),
+			band(byteIn(b0, 0xF4, 0xF4), byteIn(bs[1], 0x80, 0x8F))),
+			band(byteIn(b0, 0xF1, 0xF3), cont(1)))
+		if e.decide(band(band(second, cont(2)), cont(3))) {
+			return or(or(or(bits(b0, 0x07, 18), bits(bs[1], 0x3F, 12)), bits(bs[2], 0x3F, 6)), bits(bs[3], 0x3F, 0)), 4
+		}
+	}
+	return mkInt(32, true, 0xFFFD), 1
+}
+
 // yieldPoint gives the harness a turn right after the main goroutine released
 // a metric's lock (a point at which another goroutine's operation on the same
 // metric may run): the harness function verifYieldPoint, if the job has one.
@@ -212,6 +259,32 @@ func (e *Exec) yieldPoint(mu value) {
 }
 
 func init() {
+	dec := func(e *Exec, fn *ssa.Function, args []value) value {
+		var bs []Int
+		switch x := args[0].(type) {
+		case string, SStr:
+			bs = strBytes(x)
+		default:
+			panic(inconclusive{"utf8.DecodeRuneInString on a non-string value"})
+		}
+		if len(bs) == 0 {
+			return tuple{mkInt(32, true, 0xFFFD), mkI64(0)}
+		}
+		if allConc(bs) && !hasOpaque(bs) {
+			raw := make([]byte, len(bs))
+			for i, b := range bs {
+				raw[i] = byte(b.C)
+			}
+			r, sz := utf8.DecodeRune(raw)
+			return tuple{mkInt(32, true, uint64(r)), mkI64(int64(sz))}
+		}
+		r, sz := e.decodeRune(bs)
+		return tuple{r, mkI64(int64(sz))}
+	}
+	stubs["unicode/utf8.DecodeRuneInString"] = dec
+	stubs["unicode/utf8.ValidString"] = func(e *Exec, fn *ssa.Function, args []value) value {
+		return Bool{C: e.utf8Valid(strBytes(args[0]))}
+	}
 	stubs[promPkg+".NewDesc"] = func(e *Exec, fn *ssa.Function, args []value) value {
 		ls, _ := args[2].([]value)
 		d := &promDesc{name: args[0], help: args[1], labels: append([]value{}, ls...)}
